@@ -93,6 +93,9 @@ type AuthEntry struct {
 	// Next, when set, is the outcome from the second time this entry matches on
 	// (a password that was revoked after an earlier successful login)
 	Next string `json:"next,omitempty"`
+	// SleepMs: the validator takes this long (simulated time) to reach its
+	// verdict for these credentials - a slow directory lookup
+	SleepMs int `json:"sleep_ms,omitempty"`
 }
 
 // MWSpec is one session middleware.
